@@ -383,6 +383,8 @@ class Matcher:
             return tree
         if dt == M.SECT_DT_WRAP:
             return ("W", tree)
+        if dt == M.SECT_DT_WRAP2:
+            return ("W2", tree)
         if dt in SECT_REJECTING:
             for an, val in attrs:
                 if an == "lk" and val == ("str", "x"):
